@@ -84,3 +84,14 @@ claim("C13", "TLC trace validation of P1/supercell/trigonal re-expressions + mod
       "to_translational_symmetry (sizes to 3x3x3) and choose_trigonal_lattice from either setting and back; TLC checks P1-ness, the supercell Gram matrix, the exact atom "
       "set modulo the supercell, atom and volume ratios, density, the switched state against SwitchTrigonal, and the round trip.",
       "Cells are seen through their integer Gram matrix; coordinates projected to the grid (residual > 1e-6 rejected); density to 1e-6 relative; fresh objects only (staleness is C14).")
+
+claim("C14", "TLC model checking of the memo/mutation state machine + TLC-enumerated histories replayed on real objects and trace-validated",
+      "CrystalObject.tla models a Crystal as an object with an exact structural state (setting, integer Gram matrix, grid sites), read-only queries, the in-place "
+      "trigonal switch (computed exactly by Reexpress!SwitchTrigonal) and deep copies, with the memo bookkeeping of the implementation. MC_CrystalObject proves for all "
+      "histories up to depth 5 (quick) / 6 (thorough) with 2 objects that the specified design never answers from a stale memo and that queries do not mutate, and "
+      "exhibits the shortest stale history of the design found at the pinned commit. TLC then prints every history up to length 2 over all 14 queries and length 3 over the "
+      "8-query core (thorough: 3 / 4); each is replayed on real objects of three structures (built in memory, loaded from CIF, loaded from SHELX) plus random histories "
+      "of length 5-12, and Trace_CrystalObject validates every event: the answer equals the answer of a freshly constructed crystal with the same cell, space group and "
+      "asymmetric unit, every answer to the same (query, state) is the same (register), queries leave the state untouched, a switch produces exactly the state the spec computes.",
+      "Answers are compared as digests of canonical projections; exported texts are compared through the structure they load back to; the only state-changing "
+      "operation offered by the API in scope is choose_trigonal_lattice.")
